@@ -920,7 +920,7 @@ func run(r *core.Run, ts bool) int {
 			r.Sample("chain", c.desc())
 		}
 	})
-	for _, h := range historyCases(ts) {
+	for _, h := range historyCases(ts, r.Quick()) {
 		history(r, h)
 		r.Nontrivial(h.desc())
 	}
@@ -938,10 +938,14 @@ func run(r *core.Run, ts bool) int {
 // predicate on that step's chain alone.
 var historyKinds = []string{"issuer-renamed-same-key", "issuer-rekeyed-same-name", "issuer-reissued-without-certsign", "issuer-reissued-not-a-ca"}
 
-func historyCases(ts bool) []*Case {
+func historyCases(ts bool, quick bool) []*Case {
 	var out []*Case
-	for n := 2; n <= 4; n++ {
-		for mix := 0; mix < 4; mix++ {
+	maxLen, mixes := 4, 4
+	if !quick {
+		maxLen, mixes = 5, len(keyMixes)
+	}
+	for n := 2; n <= maxLen; n++ {
+		for mix := 0; mix < mixes; mix++ {
 			for pos := 0; pos < n-1; pos++ {
 				for _, k := range historyKinds {
 					out = append(out, &Case{TS: ts, Len: n, KeyMix: mix, TimeOf: -1, History: k, HistPos: pos})
